@@ -43,14 +43,18 @@ import (
 
 // rule is one rule of the grammar the property names.
 type rule struct {
-	kind string // b a r4 r6 rc rr h4 h6
+	kind string // b a r4 r6 rc rr ro h4 h6
 	dom  string
 	sel  string // "*", "=N", "~N" for b/a
-	arg  string // ip / target / rcode number
+	arg  string // ip / target / rcode number / canonical value of an "ro" rewrite ('_' for ' ')
 	alt  bool   // alternative spelling
+	typ  int    // record type of an "ro" rewrite (0 = the bare keyword NOERROR)
+	// upper: the target of a CNAME rewrite is spelled in upper case in the
+	// rule text (DNS names are case-insensitive; the question is normalised).
+	upper bool
 }
 
-var typeNames = map[int]string{1: "A", 28: "AAAA", 16: "TXT", 5: "CNAME", 65: "HTTPS", 15: "MX"}
+var typeNames = map[int]string{1: "A", 28: "AAAA", 16: "TXT", 5: "CNAME", 65: "HTTPS", 15: "MX", 12: "PTR", 33: "SRV", 64: "SVCB"}
 var rcodeNames = map[string]string{"5": "REFUSED", "3": "NXDOMAIN", "2": "SERVFAIL"}
 
 func (r rule) text() string {
@@ -81,12 +85,21 @@ func (r rule) text() string {
 		}
 		return "||" + r.dom + "^$dnsrewrite=" + r.arg
 	case "rc":
-		if r.alt {
-			return "||" + r.dom + "^$dnsrewrite=NOERROR;CNAME;" + r.arg
+		target := r.arg
+		if r.upper {
+			target = strings.ToUpper(target)
 		}
-		return "||" + r.dom + "^$dnsrewrite=" + r.arg
+		if r.alt {
+			return "||" + r.dom + "^$dnsrewrite=NOERROR;CNAME;" + target
+		}
+		return "||" + r.dom + "^$dnsrewrite=" + target
 	case "rr":
 		return "||" + r.dom + "^$dnsrewrite=" + rcodeNames[r.arg]
+	case "ro":
+		if r.typ == 0 {
+			return "||" + r.dom + "^$dnsrewrite=NOERROR"
+		}
+		return "||" + r.dom + "^$dnsrewrite=NOERROR;" + typeNames[r.typ] + ";" + strings.ReplaceAll(r.arg, "_", " ")
 	case "h4":
 		return r.arg + " " + r.dom
 	case "h6":
@@ -101,6 +114,8 @@ func (r rule) tok() string {
 		return r.kind + "|" + r.dom + "|" + r.sel
 	case "h4", "h6":
 		return r.kind + "|" + r.dom
+	case "ro":
+		return r.kind + "|" + r.dom + "|" + strconv.Itoa(r.typ) + "|" + r.arg
 	}
 	return r.kind + "|" + r.dom + "|" + r.arg
 }
@@ -138,8 +153,18 @@ var upIPs = []string{"192.0.2.1", "192.0.2.2", "192.0.2.3"}
 var upIP6s = []string{"2001:db8::1", "2001:db8::2"}
 var rwIP4 = []string{"203.0.113.1", "203.0.113.2", "192.0.2.1"}
 var rwIP6 = []string{"2001:db8:ffff::1", "2001:db8:ffff::2"}
-var qtypes = []uint16{1, 1, 1, 28, 28, 16, 65, 15, 5}
+var qtypes = []uint16{1, 1, 1, 28, 28, 16, 65, 65, 15, 5, 12, 33, 64}
 var selPool = []string{"*", "*", "*", "=1", "=28", "~1", "=16", "~28"}
+
+// otherRewrites are $dnsrewrite values of the remaining record types, in the
+// canonical form in which rrVal renders the synthesised record.
+var otherRewrites = []rule{
+	{kind: "ro", typ: 16, arg: "hello-txt"}, {kind: "ro", typ: 16, arg: "v=spf1"},
+	{kind: "ro", typ: 15, arg: "10_mx.t1.test"}, {kind: "ro", typ: 12, arg: "ptr.t1.test"},
+	{kind: "ro", typ: 33, arg: "1_2_443_srv.t1.test"}, {kind: "ro", typ: 65, arg: "1_t1.test"},
+	{kind: "ro", typ: 65, arg: "2_._alpn=h3"}, {kind: "ro", typ: 64, arg: "3_svc.t1.test_port=8443"},
+	{kind: "ro", typ: 0, arg: ""},
+}
 
 func pick[T any](rng *rand.Rand, xs []T) T { return xs[rng.IntN(len(xs))] }
 
@@ -150,9 +175,14 @@ func genRule(rng *rand.Rand, profile string) rule {
 	switch profile {
 	case "ss":
 		if k < 80 {
-			return rule{kind: "rc", dom: dom, arg: pick(rng, targetPool), alt: true}
+			return rule{kind: "rc", dom: dom, arg: pick(rng, targetPool), alt: true, upper: rng.IntN(5) == 0}
 		}
-		return rule{kind: "r4", dom: dom, arg: pick(rng, rwIP4), alt: true}
+		if k < 92 {
+			return rule{kind: "r4", dom: dom, arg: pick(rng, rwIP4), alt: true}
+		}
+		o := pick(rng, otherRewrites)
+		o.dom = dom
+		return o
 	case "svc":
 		switch {
 		case k < 70:
@@ -165,9 +195,12 @@ func genRule(rng *rand.Rand, profile string) rule {
 			return rule{kind: "rr", dom: dom, arg: "5"}
 		}
 	case "resp":
-		// Rules aimed at answer records.
-		if k < 50 {
-			return rule{kind: pick(rng, []string{"b", "b", "a"}), dom: pick(rng, upIPs), sel: pick(rng, []string{"*", "*", "=1", "=5"})}
+		// Rules aimed at answer records, HTTPS hints included.
+		if k < 40 {
+			return rule{kind: pick(rng, []string{"b", "b", "a"}), dom: pick(rng, upIPs), sel: pick(rng, []string{"*", "*", "=1", "=5", "=65", "~65"})}
+		}
+		if k < 55 {
+			return rule{kind: pick(rng, []string{"b", "b", "a"}), dom: pick(rng, upIP6s), sel: pick(rng, []string{"*", "*", "=28", "=65", "~28"})}
 		}
 		return rule{kind: pick(rng, []string{"b", "b", "a"}), dom: pick(rng, targetPool), sel: pick(rng, []string{"*", "*", "=5", "=1"})}
 	}
@@ -181,10 +214,14 @@ func genRule(rng *rand.Rand, profile string) rule {
 	case k < 64:
 		return rule{kind: "r6", dom: dom, arg: pick(rng, rwIP6), alt: rng.IntN(2) == 0}
 	case k < 74:
-		return rule{kind: "rc", dom: dom, arg: pick(rng, targetPool), alt: rng.IntN(2) == 0}
-	case k < 80:
+		return rule{kind: "rc", dom: dom, arg: pick(rng, targetPool), alt: rng.IntN(2) == 0, upper: rng.IntN(4) == 0}
+	case k < 78:
 		return rule{kind: "rr", dom: dom, arg: pick(rng, []string{"5", "3", "2"})}
-	case k < 90:
+	case k < 84:
+		o := pick(rng, otherRewrites)
+		o.dom = dom
+		return o
+	case k < 92:
 		return rule{kind: "h4", dom: pick(rng, hostPool), arg: pick(rng, []string{"0.0.0.0", "127.0.0.1", "10.1.1.1"})}
 	default:
 		return rule{kind: "h6", dom: pick(rng, hostPool), arg: pick(rng, []string{"::", "::1", "2001:db8::5"})}
@@ -226,6 +263,35 @@ type upRR struct {
 	typ uint16
 	val string
 	ttl uint32
+	// HTTPS: hint addresses, each parameter one slice, in record order.
+	v4hint, v6hint []string
+	hintsFirst6    bool
+}
+
+// httpsRR builds the HTTPS record an upRR of type 65 stands for.
+func (rr upRR) httpsRR(h dns.RR_Header) *dns.HTTPS {
+	out := &dns.HTTPS{SVCB: dns.SVCB{Hdr: h, Priority: 1, Target: "."}}
+	out.Value = append(out.Value, &dns.SVCBAlpn{Alpn: []string{"h2"}})
+	v4 := &dns.SVCBIPv4Hint{}
+	for _, s := range rr.v4hint {
+		v4.Hint = append(v4.Hint, net.ParseIP(s).To4())
+	}
+	v6 := &dns.SVCBIPv6Hint{}
+	for _, s := range rr.v6hint {
+		v6.Hint = append(v6.Hint, net.ParseIP(s))
+	}
+	var kvs []dns.SVCBKeyValue
+	if len(v4.Hint) > 0 {
+		kvs = append(kvs, v4)
+	}
+	if len(v6.Hint) > 0 {
+		kvs = append(kvs, v6)
+	}
+	if rr.hintsFirst6 && len(kvs) == 2 {
+		kvs[0], kvs[1] = kvs[1], kvs[0]
+	}
+	out.Value = append(out.Value, kvs...)
+	return out
 }
 
 type upAns struct {
@@ -235,7 +301,7 @@ type upAns struct {
 }
 
 type modeT struct {
-	kind string // null nx ref cip
+	kind string // null nx ref cip none (none = a nil BlockingMode)
 	ttl  int
 	v4   []string
 	v6   []string
@@ -249,6 +315,8 @@ func (m modeT) build() dnsmsg.BlockingMode {
 		return &dnsmsg.BlockingModeNXDOMAIN{}
 	case "ref":
 		return &dnsmsg.BlockingModeREFUSED{}
+	case "none":
+		return nil
 	}
 	c := &dnsmsg.BlockingModeCustomIP{}
 	for _, s := range m.v4 {
@@ -296,6 +364,10 @@ func genMode(rng *rand.Rand, allowIllFormed bool) modeT {
 		// server's stays in place.
 		m.ttl = -5
 	}
+	if allowIllFormed && rng.IntN(14) == 0 {
+		// No blocking mode at all: the other way NewConstructor fails.
+		m.kind = "none"
+	}
 	if m.kind == "cip" {
 		switch rng.IntN(4) {
 		case 0:
@@ -337,48 +409,226 @@ type cfgT struct {
 	nr       bool
 	// Master switches and the pause schedule.
 	parentalOn bool
-	pause      int // 0 none; 1,2 schedules containing the fixed clock; 3,4,5 schedules not containing it
+	pause      *schedT
 	rlOn       bool
 	sbOn       bool
+	// now is what the storage's clock says while this configuration is in use.
+	now time.Time
+	// isPaused is the pause state the property oracle works with, see
+	// (*schedT).oraclePaused.
+	isPaused bool
+	// Identity under which the custom rules are cached, and their version.
+	profID  string
+	updTime time.Time
 }
 
-// fixedNow is what the storage's clock says: Wednesday 2024-01-03 12:00 UTC.
-var fixedNow = time.Date(2024, 1, 3, 12, 0, 0, 0, time.UTC)
+// zoneT is a time zone of the pool.
+type zoneT struct {
+	name string
+	loc  *time.Location
+}
 
-type fixedClock struct{}
+func mustLoad(name string) *time.Location {
+	l, err := time.LoadLocation(name)
+	hlib.Must(err)
+	return l
+}
 
-func (fixedClock) Now() time.Time { return fixedNow }
+var zonePool = []zoneT{
+	{"utc", time.UTC},
+	{"fix0530", time.FixedZone("fix0530", 5*3600+1800)},
+	{"fixm0800", time.FixedZone("fixm0800", -8*3600)},
+	{"fix1400", time.FixedZone("fix1400", 14*3600)},
+	{"berlin", mustLoad("Europe/Berlin")},
+	{"newyork", mustLoad("America/New_York")},
+	{"lordhowe", mustLoad("Australia/Lord_Howe")},
+	{"kolkata", mustLoad("Asia/Kolkata")},
+}
 
-func (c cfgT) paused() bool { return c.pause == 1 || c.pause == 2 }
+// dayPool are civil days the clock is set to: ordinary days and the days of a
+// time-zone transition (Berlin, New York, Lord Howe).
+var dayPool = [][3]int{
+	{2024, 1, 3}, {2024, 2, 29}, {2024, 7, 14}, {2024, 12, 31}, {2025, 1, 1}, {2024, 6, 8},
+	{2024, 3, 31}, {2024, 10, 27}, {2024, 3, 10}, {2024, 11, 3}, {2024, 4, 7}, {2024, 10, 6},
+}
 
-func (c cfgT) schedule() *filter.ConfigSchedule {
-	if c.pause == 0 {
+// schedT is a pause schedule: per weekday (0 = Sunday) an optional interval in
+// minutes.
+type schedT struct {
+	zone zoneT
+	week [7]*[2]int
+}
+
+func (sc *schedT) build() *filter.ConfigSchedule {
+	if sc == nil {
 		return nil
 	}
 	w := &filter.WeeklySchedule{}
-	wd := int(fixedNow.Weekday())
-	switch c.pause {
-	case 1:
-		w[wd] = &filter.DayInterval{Start: 700, End: 800}
-	case 2:
-		w[wd] = &filter.DayInterval{Start: 720, End: 721} // inclusive start
-	case 3:
-		w[wd] = &filter.DayInterval{Start: 0, End: 720} // exclusive end
-	case 4:
-		w[(wd+1)%7] = &filter.DayInterval{Start: 0, End: 1440}
-		w[(wd+6)%7] = &filter.DayInterval{Start: 0, End: 1440}
-	default:
-		w[wd] = &filter.DayInterval{}
+	for d, iv := range sc.week {
+		if iv != nil {
+			w[d] = &filter.DayInterval{Start: uint16(iv[0]), End: uint16(iv[1])}
+		}
 	}
-	return &filter.ConfigSchedule{Week: w, TimeZone: &agdtime.Location{Location: *time.UTC}}
+	return &filter.ConfigSchedule{Week: w, TimeZone: &agdtime.Location{Location: *sc.zone.loc}}
 }
+
+// token renders the schedule for the model: zone;wd:start-stop;...
+func (sc *schedT) token() string {
+	if sc == nil {
+		return "-"
+	}
+	parts := []string{sc.zone.name}
+	for d, iv := range sc.week {
+		if iv != nil {
+			parts = append(parts, fmt.Sprintf("%d:%d-%d", d, iv[0], iv[1]))
+		}
+	}
+	return strings.Join(parts, ";")
+}
+
+// calendarContains is the documented meaning of a pause schedule, read off a
+// wall clock in the profile's zone: today's weekday has an interval and the
+// time of day lies in [start, end).
+func (sc *schedT) calendarContains(now time.Time) bool {
+	lt := now.In(sc.zone.loc)
+	iv := sc.week[int(lt.Weekday())]
+	if iv == nil || (iv[0] == 0 && iv[1] == 0) {
+		return false
+	}
+	sec := lt.Hour()*3600 + lt.Minute()*60 + lt.Second()
+	return iv[0]*60 <= sec && sec < iv[1]*60
+}
+
+// transitionDay reports whether the zone's offset changes within the civil day
+// of now.
+func (sc *schedT) transitionDay(now time.Time) bool {
+	lt := now.In(sc.zone.loc)
+	_, o1 := time.Date(lt.Year(), lt.Month(), lt.Day(), 0, 0, 0, 0, sc.zone.loc).Zone()
+	_, o2 := time.Date(lt.Year(), lt.Month(), lt.Day(), 23, 59, 59, 0, sc.zone.loc).Zone()
+	return o1 != o2
+}
+
+// oraclePaused is the pause state the oracle works with: the calendar reading.
+// On the day of a zone transition the code measures the interval in elapsed
+// minutes since local midnight, which is off by the size of the transition
+// (proved as pause_dst_day_differs; the property does not speak about the
+// schedule); there the implementation's own answer is taken and the case is
+// counted.
+func (sc *schedT) oraclePaused(r *hlib.Result, now time.Time) bool {
+	if sc == nil {
+		return false
+	}
+	cal := sc.calendarContains(now)
+	if sc.transitionDay(now) {
+		r.Count("pause-transition-day")
+		if real := sc.build().Contains(now); real != cal {
+			r.Count("pause-transition-day-calendar-differs")
+			return real
+		}
+	}
+	return cal
+}
+
+// zoneLine describes the zone to the model: the periods around now (none for a
+// fixed-offset zone) and the offset outside them.
+func zoneLine(z zoneT, now time.Time) string {
+	const far = int64(4000000000)
+	var periods []string
+	t := now.In(z.loc)
+	start, end := t.ZoneBounds()
+	_, base := t.Zone()
+	if start.IsZero() && end.IsZero() {
+		return fmt.Sprintf("zone %s %d -", z.name, base)
+	}
+	add := func(at time.Time) (time.Time, time.Time) {
+		st, en := at.ZoneBounds()
+		_, off := at.Zone()
+		s0, e0 := -far, far
+		if !st.IsZero() {
+			s0 = st.Unix()
+		}
+		if !en.IsZero() {
+			e0 = en.Unix()
+		}
+		periods = append(periods, fmt.Sprintf("%d:%d:%d", s0, e0, off))
+		return st, en
+	}
+	st, en := add(t)
+	for i, cur := 0, st; i < 2 && !cur.IsZero(); i++ {
+		cur, _ = add(cur.Add(-time.Second).In(z.loc))
+	}
+	for i, cur := 0, en; i < 2 && !cur.IsZero(); i++ {
+		_, cur = add(cur.In(z.loc))
+	}
+	return fmt.Sprintf("zone %s %d %s", z.name, base, strings.Join(periods, ","))
+}
+
+// genSched draws a schedule and a clock reading that is, more often than not,
+// on or next to one of the interval's boundaries.
+func genSched(rng *rand.Rand) (*schedT, time.Time) {
+	sc := &schedT{zone: pick(rng, zonePool)}
+	day := pick(rng, dayPool)
+	midnight := time.Date(day[0], time.Month(day[1]), day[2], 0, 0, 0, 0, sc.zone.loc)
+	wd := int(midnight.Weekday())
+	ivs := [][2]int{{700, 800}, {0, 720}, {720, 1440}, {0, 1440}, {0, 0}, {60, 180}, {120, 121}, {1439, 1440}, {0, 1}}
+	iv := pick(rng, ivs)
+	switch rng.IntN(6) {
+	case 0:
+		// The neighbouring days only.
+		a, b := pick(rng, ivs), pick(rng, ivs)
+		sc.week[(wd+1)%7], sc.week[(wd+6)%7] = &a, &b
+	case 1:
+		sc.week[wd] = &iv
+		b := pick(rng, ivs)
+		sc.week[(wd+6)%7] = &b
+	default:
+		sc.week[wd] = &iv
+	}
+	// Wall-clock readings of interest: the boundaries of today's interval.
+	var now time.Time
+	at := func(min, sec int) time.Time {
+		return time.Date(day[0], time.Month(day[1]), day[2], 0, min, sec, 0, sc.zone.loc)
+	}
+	switch rng.IntN(8) {
+	case 0:
+		now = at(iv[0], 0)
+	case 1:
+		now = at(iv[0], -1)
+	case 2:
+		now = at(iv[1], 0)
+	case 3:
+		now = at(iv[1], -1)
+	case 4:
+		now = at((iv[0]+iv[1])/2, 30)
+	case 5:
+		now = at(0, 0)
+	default:
+		now = at(rng.IntN(1440), rng.IntN(60))
+	}
+	return sc, now.UTC()
+}
+
+// defaultNow is what the storage's clock says when a configuration has no
+// schedule: Wednesday 2024-01-03 12:00 UTC.
+var defaultNow = time.Date(2024, 1, 3, 12, 0, 0, 0, time.UTC)
+
+// clockNow is the reading of the injected clock.
+var clockNow = defaultNow
+
+type fixedClock struct{}
+
+func (fixedClock) Now() time.Time { return clockNow }
+
+func (c cfgT) paused() bool { return c.isPaused }
+
+func (c cfgT) schedule() *filter.ConfigSchedule { return c.pause.build() }
 
 // effective applies the documented meaning of the master switches: a disabled
 // group of settings contributes nothing, parental control is off inside its
 // pause schedule, IDs the storage does not know are skipped, custom rules
 // count only for a client configuration with the custom filter enabled.
 func (c cfgT) effective(u *universe) cfgT {
-	e := cfgT{isClient: c.isClient, parentalOn: true, rlOn: true, sbOn: true}
+	e := cfgT{isClient: c.isClient, parentalOn: true, rlOn: true, sbOn: true, now: c.now}
 	if c.isClient && c.hasCust && len(c.custom) > 0 {
 		e.hasCust, e.custom = true, c.custom
 	}
@@ -483,7 +733,7 @@ func genUniverse(rng *rand.Rand) *universe {
 	names := append(append([]string{}, hostPool...), targetPool...)
 	names = append(names, "sb-repl.test", "ad-repl.test")
 	for _, h := range names {
-		for _, qt := range []uint16{1, 28, 16} {
+		for _, qt := range []uint16{1, 28, 16, 65} {
 			if rng.IntN(5) == 0 {
 				continue // default: empty NOERROR
 			}
@@ -494,15 +744,29 @@ func genUniverse(rng *rand.Rand) *universe {
 				a.ns = rng.IntN(2)
 			case qt == 1:
 				if rng.IntN(3) == 0 {
-					a.rrs = append(a.rrs, upRR{5, pick(rng, targetPool), 7777})
+					a.rrs = append(a.rrs, upRR{typ: 5, val: pick(rng, targetPool), ttl: 7777})
 				}
 				for i := 1 + rng.IntN(2); i > 0; i-- {
-					a.rrs = append(a.rrs, upRR{1, pick(rng, upIPs), 7777})
+					a.rrs = append(a.rrs, upRR{typ: 1, val: pick(rng, upIPs), ttl: 7777})
 				}
 			case qt == 28:
-				a.rrs = append(a.rrs, upRR{28, pick(rng, upIP6s), 7777})
+				a.rrs = append(a.rrs, upRR{typ: 28, val: pick(rng, upIP6s), ttl: 7777})
+			case qt == 65:
+				if rng.IntN(4) == 0 {
+					a.rrs = append(a.rrs, upRR{typ: 5, val: pick(rng, targetPool), ttl: 7777})
+				}
+				for i := 1 + rng.IntN(2); i > 0; i-- {
+					rr := upRR{typ: 65, ttl: 7777, hintsFirst6: rng.IntN(3) == 0}
+					for j := rng.IntN(3); j > 0; j-- {
+						rr.v4hint = append(rr.v4hint, pick(rng, upIPs))
+					}
+					for j := rng.IntN(3); j > 0; j-- {
+						rr.v6hint = append(rr.v6hint, pick(rng, upIP6s))
+					}
+					a.rrs = append(a.rrs, rr)
+				}
 			default:
-				a.rrs = append(a.rrs, upRR{16, "txt-" + strings.ReplaceAll(h, ".", "-"), 7777})
+				a.rrs = append(a.rrs, upRR{typ: 16, val: "txt-" + strings.ReplaceAll(h, ".", "-"), ttl: 7777})
 			}
 			u.up[upKey(h, qt)] = a
 		}
@@ -522,8 +786,9 @@ func genCfg(rng *rand.Rand, u *universe, withCustom bool) cfgT {
 		// Rules may be present while the custom filter is switched off.
 		c.hasCust = rng.IntN(6) != 0
 	}
-	if rng.IntN(5) == 0 {
-		c.pause = 1 + rng.IntN(5)
+	c.now = defaultNow
+	if rng.IntN(4) == 0 {
+		c.pause, c.now = genSched(rng)
 	}
 	perm := rng.Perm(len(u.lists))
 	c.lists = perm[:rng.IntN(len(perm)+1)]
@@ -542,15 +807,25 @@ func genCfg(rng *rand.Rand, u *universe, withCustom bool) cfgT {
 }
 
 // line renders the raw configuration (switches as sent, nothing applied) for
-// the model: pcfg w isClient custOn custom pOn paused ad g y svcs rlOn lists sbOn dang nr.
+// the model: pcfg w isClient custOn custom pOn schedule ad g y svcs rlOn lists sbOn dang nr.
 func (c cfgT) line(which string, custName string) string {
 	cust := "-"
 	if len(c.custom) > 0 {
 		cust = custName
 	}
 	return fmt.Sprintf("pcfg %s %s %s %s %s %s %s %s %s %s %s %s %s %s %s", which, b01(c.isClient), b01(c.hasCust), cust,
-		b01(c.parentalOn), b01(c.paused()), b01(c.ad), b01(c.gss), b01(c.yss), idxCSV("s", c.svcs),
+		b01(c.parentalOn), c.pause.token(), b01(c.ad), b01(c.gss), b01(c.yss), idxCSV("s", c.svcs),
 		b01(c.rlOn), idxCSV("l", c.lists), b01(c.sbOn), b01(c.sb), b01(c.nr))
+}
+
+// timeLines tell the model what the clock says and, if there is a schedule,
+// what its zone looks like around that instant.
+func (c cfgT) timeLines() []string {
+	ls := []string{fmt.Sprintf("now %d", c.now.Unix())}
+	if c.pause != nil {
+		ls = append([]string{zoneLine(c.pause.zone, c.now)}, ls...)
+	}
+	return ls
 }
 
 func (u *universe) modelLines() []string {
@@ -570,10 +845,16 @@ func (u *universe) modelLines() []string {
 		parts := strings.Split(k, "/")
 		var rrs []string
 		for _, rr := range a.rrs {
+			if rr.typ == 65 {
+				h := rr.httpsRR(dns.RR_Header{Rrtype: 65})
+				rrs = append(rrs, fmt.Sprintf("65/%s/%d/%s", rrVal(h), rr.ttl, semiOrDash(hintsOf(h))))
+				continue
+			}
 			rrs = append(rrs, fmt.Sprintf("%d/%s/%d", rr.typ, rr.val, rr.ttl))
 		}
 		ls = append(ls, fmt.Sprintf("up %s %s %d %s %d", parts[0], parts[1], a.rcode, orDash(rrs), a.ns))
 	}
+	ls = append(ls, u.grp.timeLines()...)
 	ls = append(ls, u.grp.line("g", "-"), u.gmode.srvLine())
 	return ls
 }
@@ -593,7 +874,11 @@ func (u *universe) filterConfig(c cfgT, profID string) (p *filter.ConfigParental
 		rl.IDs = append(rl.IDs, filter.ID("list_"+strconv.Itoa(l)))
 	}
 	sbc = &filter.ConfigSafeBrowsing{Enabled: c.sbOn, DangerousDomainsEnabled: c.sb, NewlyRegisteredDomainsEnabled: c.nr}
-	cust = &filter.ConfigCustom{ID: profID, UpdateTime: time.Unix(1700000000, 0), Enabled: c.hasCust}
+	upd := c.updTime
+	if upd.IsZero() {
+		upd = time.Unix(1700000000, 0)
+	}
+	cust = &filter.ConfigCustom{ID: profID, UpdateTime: upd, Enabled: c.hasCust}
 	for _, r := range c.custom {
 		cust.Rules = append(cust.Rules, filter.RuleText(r.text()))
 	}
@@ -717,7 +1002,7 @@ func (u *universe) build(rng *rand.Rand) {
 		Upstream: dnsserver.HandlerFunc(func(ctx context.Context, rw dnsserver.ResponseWriter, req *dns.Msg) error {
 			resp := u.upstreamReply(req)
 			u.lastUp = resp.Copy()
-			u.upName = strings.TrimSuffix(req.Question[0].Name, ".")
+			u.upName = strings.ToLower(strings.TrimSuffix(req.Question[0].Name, "."))
 			return rw.WriteMsg(ctx, req, resp)
 		}),
 	})
@@ -754,6 +1039,8 @@ func (u *universe) upstreamReply(req *dns.Msg) *dns.Msg {
 			resp.Answer = append(resp.Answer, &dns.CNAME{Hdr: h, Target: dns.Fqdn(rr.val)})
 		case 16:
 			resp.Answer = append(resp.Answer, &dns.TXT{Hdr: h, Txt: []string{rr.val}})
+		case 65:
+			resp.Answer = append(resp.Answer, rr.httpsRR(h))
 		}
 	}
 	for i := 0; i < a.ns; i++ {
@@ -798,11 +1085,71 @@ func rrVal(rr dns.RR) string {
 		a, _ := netip.AddrFromSlice(v.AAAA)
 		return a.String()
 	case *dns.CNAME:
-		return strings.TrimSuffix(v.Target, ".")
+		return strings.ToLower(strings.TrimSuffix(v.Target, "."))
 	case *dns.TXT:
 		return strings.Join(v.Txt, "")
+	case *dns.MX:
+		return fmt.Sprintf("%d_%s", v.Preference, strings.TrimSuffix(v.Mx, "."))
+	case *dns.PTR:
+		return strings.TrimSuffix(v.Ptr, ".")
+	case *dns.SRV:
+		return fmt.Sprintf("%d_%d_%d_%s", v.Priority, v.Weight, v.Port, strings.TrimSuffix(v.Target, "."))
+	case *dns.HTTPS:
+		return svcbVal(&v.SVCB)
+	case *dns.SVCB:
+		return svcbVal(v)
 	}
 	return "?"
+}
+
+// svcbVal renders an SVCB/HTTPS record as priority_target[_key=value...]; the
+// addresses of a hint are joined with '+'.
+func svcbVal(v *dns.SVCB) string {
+	t := strings.TrimSuffix(v.Target, ".")
+	if t == "" {
+		t = "."
+	}
+	out := fmt.Sprintf("%d_%s", v.Priority, t)
+	for _, kv := range v.Value {
+		out += "_" + kv.Key().String() + "=" + strings.ReplaceAll(kv.String(), ",", "+")
+	}
+	return out
+}
+
+// hintsOf returns the ipv4hint/ipv6hint addresses of an HTTPS record in record
+// order, as the response filter reads them.
+func hintsOf(rr *dns.HTTPS) (hints []string) {
+	for _, kv := range rr.Value {
+		switch h := kv.(type) {
+		case *dns.SVCBIPv4Hint:
+			for _, ip := range h.Hint {
+				hints = append(hints, ip.String())
+			}
+		case *dns.SVCBIPv6Hint:
+			for _, ip := range h.Hint {
+				hints = append(hints, ip.String())
+			}
+		}
+	}
+	return hints
+}
+
+func semiOrDash(xs []string) string {
+	if len(xs) == 0 {
+		return "-"
+	}
+	return strings.Join(xs, ";")
+}
+
+// ansTok renders one answer record for a model "resp" line.
+func ansTok(rr dns.RR) string {
+	switch v := rr.(type) {
+	case *dns.A, *dns.AAAA, *dns.CNAME:
+		return fmt.Sprintf("%d/%s", rr.Header().Rrtype, rrVal(rr))
+	case *dns.HTTPS:
+		return "65/" + semiOrDash(hintsOf(v))
+	}
+	return "0/x"
 }
 
 func sortedCSV(xs []string) string {
@@ -823,7 +1170,7 @@ func verdictString(res filter.Result) string {
 	case *filter.ResultBlocked:
 		return "block " + shortID(v.List, v.Rule)
 	case *filter.ResultModifiedRequest:
-		return "modreq " + shortID(v.List, v.Rule) + " " + strings.TrimSuffix(v.Msg.Question[0].Name, ".")
+		return "modreq " + shortID(v.List, v.Rule) + " " + strings.ToLower(strings.TrimSuffix(v.Msg.Question[0].Name, "."))
 	case *filter.ResultModifiedResponse:
 		switch v.List {
 		case filter.IDSafeBrowsing, filter.IDAdultBlocking, filter.IDNewRegDomains:
@@ -838,18 +1185,40 @@ func verdictString(res filter.Result) string {
 	return fmt.Sprintf("unknown-%T", res)
 }
 
-// normVerdict sorts the value list of a model "modresp" line and strips the
-// ambiguity flag.
-func normVerdict(s string) (v string, ambig bool) {
-	if strings.HasSuffix(s, " ambig") {
-		s, ambig = strings.TrimSuffix(s, " ambig"), true
+// modelAlts splits a model answer into its alternatives: "ambig a || b" lists
+// every answer the engine's unspecified match order admits.
+func modelAlts(s string) []string {
+	if strings.HasPrefix(s, "ambig ") {
+		return strings.Split(strings.TrimPrefix(s, "ambig "), " || ")
 	}
+	return []string{s}
+}
+
+func normVerdict1(s string) string {
 	f := strings.Fields(s)
 	if len(f) == 4 && f[0] == "modresp" && f[3] != "-" {
 		f[3] = sortedCSV(strings.Split(f[3], ","))
 		s = strings.Join(f, " ")
 	}
-	return s, ambig
+	return s
+}
+
+// normVerdict sorts the value list of every alternative of a model "modresp"
+// line (the order of synthesised values is the engine's match order).
+func normVerdict(s string) (alts []string) {
+	for _, a := range modelAlts(s) {
+		alts = append(alts, normVerdict1(a))
+	}
+	return alts
+}
+
+func oneOf(alts []string, v string) bool {
+	for _, a := range alts {
+		if a == v {
+			return true
+		}
+	}
+	return false
 }
 
 const fakeSOANs = "fake-for-negative-caching.adguard.com."
@@ -898,10 +1267,7 @@ func msgString(m *dns.Msg, up *dns.Msg) string {
 	return fmt.Sprintf("%d %s %s %d", m.Rcode, a, soa, upNs)
 }
 
-func normMsg(s string) (v string, ambig bool) {
-	if strings.HasSuffix(s, " ambig") {
-		s, ambig = strings.TrimSuffix(s, " ambig"), true
-	}
+func normMsg1(s string) string {
 	f := strings.Fields(s)
 	if len(f) == 4 && f[1] != "-" {
 		// Synthesised values of a rewrite are unordered (engine match order).
@@ -918,7 +1284,14 @@ func normMsg(s string) (v string, ambig bool) {
 		}
 		s = strings.Join(f, " ")
 	}
-	return s, ambig
+	return s
+}
+
+func normMsg(s string) (alts []string) {
+	for _, a := range modelAlts(s) {
+		alts = append(alts, normMsg1(a))
+	}
+	return alts
 }
 
 // ---------------------------------------------------------------------------
@@ -963,81 +1336,134 @@ func isFilterable(qt uint16) bool { return qt == 1 || qt == 28 || qt == 65 }
 type expectation struct {
 	clause string
 	// kinds admitted ("allow", "block", "modreq", "modresp", "none") and the
-	// lists admitted; exact, when set, must equal the verdict.
+	// lists admitted; exact, when set, must equal the verdict; anyOf lists
+	// several admissible verdicts (the documented semantics of several
+	// CNAME/rcode rewrites of ONE list matching one name does not say which is
+	// taken).
 	kinds []string
 	lists []string
 	exact string
-	// skip: the case depends on urlfilter's unspecified match order.
-	skip bool
+	anyOf []string
 }
 
-// reqFilterExpect returns the verdict the request filters must produce, in
-// the documented order, or "" if none applies; skip is set for order-dependent
-// safe-search lists.
-func (u *universe) reqFilterExpect(c cfgT, mode modeT, host string, qt uint16) (exact string, skip bool) {
-	if !isFilterable(qt) {
-		return "", false
+// rewriteOutcomes returns the verdicts which the documented $dnsrewrite
+// semantics admit for the rules of one list: a CNAME rewrite or a non-NOERROR
+// code takes priority over values (which of several is not specified), a CNAME
+// of the name to itself is a no-op, otherwise the values of the queried type
+// form the answer.  "" stands for "no verdict from this list".
+func rewriteOutcomes(id string, rs []rule, host string, qt uint16) []string {
+	var terms []rule
+	var vals []string
+	n := 0
+	for _, r := range rs {
+		if !strings.HasPrefix(r.kind, "r") || !domMatch(r.dom, host) {
+			continue
+		}
+		n++
+		switch r.kind {
+		case "rc", "rr":
+			terms = append(terms, r)
+		case "r4":
+			if qt == 1 {
+				vals = append(vals, r.arg)
+			}
+		case "r6":
+			if qt == 28 {
+				vals = append(vals, r.arg)
+			}
+		case "ro":
+			if r.typ != 0 && int(qt) == r.typ {
+				vals = append(vals, r.arg)
+			}
+		}
 	}
-	hash := func(on bool, h hashSet, id string) string {
+	if n == 0 {
+		return []string{""}
+	}
+	if len(terms) == 0 {
+		return []string{"modresp " + id + " 0 " + sortedCSV(vals)}
+	}
+	var out []string
+	seen := map[string]bool{}
+	for _, t := range terms {
+		o := ""
+		switch {
+		case t.kind == "rr":
+			o = "modresp " + id + " " + t.arg + " -"
+		case t.arg != host:
+			o = "modreq " + id + " " + t.arg
+		}
+		if !seen[o] {
+			seen[o] = true
+			out = append(out, o)
+		}
+	}
+	return out
+}
+
+// chain combines stages that are consulted in order, each with a set of
+// admissible outcomes: the first stage with a verdict decides.  The result is
+// the set of admissible outcomes of the whole chain ("" = none has one).
+func chain(stages [][]string) []string {
+	seen := map[string]bool{}
+	var out []string
+	var walk func(i int)
+	walk = func(i int) {
+		if i == len(stages) {
+			if !seen[""] {
+				seen[""] = true
+				out = append(out, "")
+			}
+			return
+		}
+		for _, o := range stages[i] {
+			if o == "" {
+				walk(i + 1)
+			} else if !seen[o] {
+				seen[o] = true
+				out = append(out, o)
+			}
+		}
+	}
+	walk(0)
+	return out
+}
+
+// reqFilterExpect returns the verdicts the safety filters may produce, in the
+// documented order; "" = none of them has one.
+func (u *universe) reqFilterExpect(c cfgT, mode modeT, host string, qt uint16) []string {
+	if !isFilterable(qt) {
+		return []string{""}
+	}
+	hash := func(on bool, h hashSet, id string) []string {
 		if !on {
-			return ""
+			return []string{""}
 		}
 		for _, d := range h.hosts {
 			if domMatch(d, host) {
 				if ip, err := netip.ParseAddr(h.repl); err == nil {
-					return "modmsg " + id + " " + expectBlockPage(mode, host, qt, ip)
+					return []string{"modmsg " + id + " " + expectBlockPage(mode, host, qt, ip)}
 				}
-				return "modreq " + id + " " + h.repl
+				return []string{"modreq " + id + " " + h.repl}
 			}
 		}
-		return ""
+		return []string{""}
 	}
-	ss := func(on bool, rs []rule, id string) (string, bool) {
+	ss := func(on bool, rs []rule, id string) []string {
 		if !on {
-			return "", false
+			return []string{""}
 		}
-		var cn, other []rule
-		for _, r := range rs {
-			if !domMatch(r.dom, host) {
-				continue
-			}
-			if r.kind == "rc" {
-				cn = append(cn, r)
-			} else {
-				other = append(other, r)
-			}
-		}
-		switch {
-		case len(cn) == 0 && len(other) == 0:
-			return "", false
-		case len(cn) == 1 && len(other) == 0 && cn[0].arg != host:
-			return "modreq " + id + " " + cn[0].arg, false
-		case len(cn) == 1 && cn[0].arg == host:
-			return "", false
-		case len(cn) == 0:
-			var vals []string
-			for _, r := range other {
-				if r.kind == "r4" && qt == 1 {
-					vals = append(vals, r.arg)
-				}
-			}
-			return "modresp " + id + " 0 " + sortedCSV(vals), false
-		}
-		return "", true
+		return rewriteOutcomes(id, rs, host, qt)
 	}
-	if v := hash(c.sb, u.sb, "sb"); v != "" {
-		return v, false
+	return chain([][]string{hash(c.sb, u.sb, "sb"), hash(c.ad, u.ad, "adult"), ss(c.gss, u.gss, "gss"), ss(c.yss, u.yss, "yss"),
+		hash(c.nr, u.nr, "nrd")})
+}
+
+func single(clause string, alts []string) expectation {
+	if len(alts) == 1 {
+		return expectation{clause: clause, exact: alts[0]}
 	}
-	if v := hash(c.ad, u.ad, "adult"); v != "" {
-		return v, false
-	}
-	if v, sk := ss(c.gss, u.gss, "gss"); v != "" || sk {
-		return v, sk
-	}
-	if v, sk := ss(c.yss, u.yss, "yss"); v != "" || sk {
-		return v, sk
-	}
-	return hash(c.nr, u.nr, "nrd"), false
+	return expectation{clause: clause + "-order-dependent", anyOf: alts}
 }
 
 // expectReq applies the property's clauses in their documented order.
@@ -1045,26 +1471,44 @@ func (u *universe) expectReq(c cfgT, mode modeT, host string, qt uint16) expecta
 	rw, all := u.sources(c)
 	// Clause 1: a DNS-rewrite rule wins outright, custom first, then the shared
 	// lists in configured order.
+	var stages [][]string
 	for _, s := range rw {
-		n, self := 0, false
-		for _, r := range s.rules {
-			if strings.HasPrefix(r.kind, "r") && domMatch(r.dom, host) {
-				n++
-				if r.kind == "rc" && r.arg == host {
-					self = true
-				}
+		stages = append(stages, rewriteOutcomes(s.id, s.rules, host, qt))
+	}
+	rwAlts := chain(stages)
+	if len(rwAlts) > 1 || rwAlts[0] != "" {
+		hasNone := false
+		var alts []string
+		for _, a := range rwAlts {
+			if a == "" {
+				hasNone = true
+			} else {
+				alts = append(alts, a)
 			}
 		}
-		if n == 0 {
-			continue
+		if !hasNone {
+			return single("rewrite-wins", alts)
 		}
-		if self {
-			// A rewrite of a name to itself is a no-op; whether the list's
-			// other rewrites apply depends on match order.
-			return expectation{clause: "rewrite-self", skip: true}
+		// A self-CNAME next to other early exits: either a rewrite or whatever
+		// the remaining clauses say.
+		rest := u.expectNoRewrite(c, all, mode, host, qt)
+		if rest.exact == "" && len(rest.anyOf) == 0 {
+			// The rest is a kinds/lists expectation: keep it simple and
+			// admit either side.
+			return expectation{clause: "rewrite-self-or-rest", anyOf: alts, kinds: rest.kinds, lists: rest.lists}
 		}
-		return expectation{clause: "rewrite-wins", kinds: []string{"modreq", "modresp"}, lists: []string{s.id}}
+		alts = append(alts, rest.anyOf...)
+		if rest.exact != "" {
+			alts = append(alts, rest.exact)
+		}
+		return expectation{clause: "rewrite-self-or-rest", anyOf: alts}
 	}
+	return u.expectNoRewrite(c, all, mode, host, qt)
+}
+
+// expectNoRewrite is clauses 2 and 3: allow over block, then the safety
+// filters unless the deciding allow is the profile's own.
+func (u *universe) expectNoRewrite(c cfgT, all []source, mode modeT, host string, qt uint16) expectation {
 	// Clause 2: an allow rule from any source beats every block rule.
 	type hit struct {
 		src   string
@@ -1089,7 +1533,18 @@ func (u *universe) expectReq(c cfgT, mode modeT, host string, qt uint16) expecta
 			}
 		}
 	}
-	rf, rfSkip := u.reqFilterExpect(c, mode, host, qt)
+	rf := u.reqFilterExpect(c, mode, host, qt)
+	withFallback := func(fallback string) []string {
+		var alts []string
+		for _, a := range rf {
+			if a == "" {
+				a = fallback
+			}
+			alts = append(alts, a)
+		}
+		return alts
+	}
+	rfDecides := len(rf) > 1 || rf[0] != ""
 	if len(allows) > 0 {
 		// The deciding allow rule is the most specific one; ties go to the
 		// earliest source (custom first).
@@ -1102,11 +1557,8 @@ func (u *universe) expectReq(c cfgT, mode modeT, host string, qt uint16) expecta
 		if best.src == "custom" {
 			return expectation{clause: "custom-allow-stops", exact: "allow custom"}
 		}
-		if rfSkip {
-			return expectation{clause: "allow-then-reqfilters", skip: true}
-		}
-		if rf != "" {
-			return expectation{clause: "allow-then-reqfilters", exact: rf}
+		if rfDecides {
+			return single("allow-then-reqfilters", withFallback("allow "+best.src))
 		}
 		return expectation{clause: "allow-beats-block", exact: "allow " + best.src}
 	}
@@ -1117,21 +1569,32 @@ func (u *universe) expectReq(c cfgT, mode modeT, host string, qt uint16) expecta
 		}
 		return expectation{clause: "block-blocks", kinds: []string{"block"}, lists: ls}
 	}
-	if rfSkip {
-		return expectation{clause: "reqfilters", skip: true}
-	}
-	if rf != "" {
-		return expectation{clause: "reqfilters", exact: rf}
+	if rfDecides {
+		return single("reqfilters", withFallback("none"))
 	}
 	return expectation{clause: "nothing", exact: "none"}
 }
 
-func (e expectation) admits(v string) bool {
-	if e.skip {
-		return true
+func (e expectation) want() string {
+	switch {
+	case e.exact != "":
+		return e.exact
+	case len(e.kinds) == 0:
+		return "one of " + strings.Join(e.anyOf, " | ")
+	case len(e.anyOf) > 0:
+		return fmt.Sprintf("one of %s or %v from %v", strings.Join(e.anyOf, " | "), e.kinds, e.lists)
 	}
+	return fmt.Sprintf("%v from %v", e.kinds, e.lists)
+}
+
+func (e expectation) admits(v string) bool {
 	if e.exact != "" {
 		return v == e.exact
+	}
+	for _, a := range e.anyOf {
+		if v == a {
+			return true
+		}
 	}
 	f := strings.Fields(v)
 	okKind, okList := false, false
@@ -1206,12 +1669,26 @@ func expectBlockPage(m modeT, host string, qt uint16, ip netip.Addr) string {
 // blocks; the first record with a verdict decides; rewrites never apply.
 func (u *universe) expectResp(c cfgT, answers []dns.RR) expectation {
 	_, all := u.sources(c)
+	// Every name or address the documented response filtering looks at, with
+	// the record type it is matched under: addresses and CNAME targets under
+	// their own type, the address hints of an HTTPS record under HTTPS.
+	type item struct {
+		val string
+		t   uint16
+	}
+	var items []item
 	for _, rr := range answers {
-		t := rr.Header().Rrtype
-		if t != 1 && t != 28 && t != 5 {
-			continue
+		switch v := rr.(type) {
+		case *dns.A, *dns.AAAA, *dns.CNAME:
+			items = append(items, item{rrVal(rr), rr.Header().Rrtype})
+		case *dns.HTTPS:
+			for _, h := range hintsOf(v) {
+				items = append(items, item{h, 65})
+			}
 		}
-		val := rrVal(rr)
+	}
+	for _, it := range items {
+		val, t := it.val, it.t
 		var allows, blocks []string
 		for _, s := range all {
 			for _, r := range s.rules {
@@ -1325,13 +1802,23 @@ func runUniverse(o *hlib.Opts, r *hlib.Result, m *hlib.Model, rng *rand.Rand, nC
 	u := genUniverse(rng)
 	u.build(rng)
 	defer u.close()
+	u.grp.isPaused = u.grp.pause.oraclePaused(r, u.grp.now)
 	ulines := u.modelLines()
 	ctx := context.Background()
 
+	profID, updTime := "", time.Unix(1700000000, 0)
 	for ci := 0; ci < nCfg; ci++ {
-		profSeq++
-		profID := fmt.Sprintf("prof%d", profSeq)
 		isGroup := ci == 0
+		if profID != "" && !isGroup && rng.IntN(3) == 0 {
+			// The same profile again with its settings changed: the custom
+			// rules are cached by profile ID and must be rebuilt for a newer
+			// update time.
+			updTime = updTime.Add(time.Hour)
+			r.Count("profile-updated-in-place")
+		} else {
+			profSeq++
+			profID = fmt.Sprintf("prof%d", profSeq)
+		}
 		var c cfgT
 		var mode modeT
 		var flt filter.Interface
@@ -1345,16 +1832,32 @@ func runUniverse(o *hlib.Opts, r *hlib.Result, m *hlib.Model, rng *rand.Rand, nC
 		var profMode modeT
 		if isGroup {
 			c, mode, which = u.grp, u.gmode, "g"
+			clockNow = c.now
+			clines = append(clines, c.timeLines()...)
 			flt = u.strg.ForConfig(ctx, u.groupConfig(c))
 			sw[0] = false
 		} else {
 			c = genCfg(rng, u, true)
+			c.profID, c.updTime = profID, updTime
+			c.isPaused = c.pause.oraclePaused(r, c.now)
+			clockNow = c.now
+			if c.pause != nil {
+				r.Count("cfg-pause-schedule-" + c.pause.zone.name)
+				if c.isPaused {
+					r.Count("cfg-paused")
+				}
+			}
 			profMode = genMode(rng, true)
 			mode = profMode
 			if profMode.ttl < 0 {
 				mode = u.gmode
 				r.Count("profile-negative-ttl")
 			}
+			if profMode.kind == "none" {
+				mode = u.gmode
+				r.Count("profile-nil-blocking-mode")
+			}
+			clines = append(clines, c.timeLines()...)
 			clines = append(clines, strings.TrimSpace("list c0 "+toks(c.custom)), c.line("p", "c0"), profMode.line())
 			flt = u.strg.ForConfig(ctx, u.clientConfig(c, profID))
 			if rng.IntN(6) == 0 {
@@ -1411,12 +1914,7 @@ func runUniverse(o *hlib.Opts, r *hlib.Result, m *hlib.Model, rng *rand.Rand, nC
 			upMsg := u.upstreamReply(newReq(q.host, q.qt))
 			var ansToks []string
 			for _, rr := range upMsg.Answer {
-				switch rr.Header().Rrtype {
-				case 1, 28, 5:
-					ansToks = append(ansToks, fmt.Sprintf("%d/%s", rr.Header().Rrtype, rrVal(rr)))
-				default:
-					ansToks = append(ansToks, "0/x")
-				}
+				ansToks = append(ansToks, ansTok(rr))
 			}
 			pres, perr := flt.FilterResponse(ctx, &filter.Response{DNS: upMsg, RemoteIP: remote})
 			respV := verdictString(pres)
@@ -1456,55 +1954,53 @@ func runUniverse(o *hlib.Opts, r *hlib.Result, m *hlib.Model, rng *rand.Rand, nC
 			case "req":
 				r.Count("req-" + strings.Fields(ob.real)[0])
 				r.Count("clause-" + ob.exp.clause)
-				if ob.exp.skip {
-					r.Count("oracle-skipped-order-dependent")
+				if len(ob.exp.anyOf) > 0 {
+					r.Count("oracle-order-dependent-alternatives")
 				}
 				if ob.real != "none" {
 					nontrivial = true
 				}
+				if f := strings.Fields(ob.real); f[0] == "modresp" && ob.q.qt != 1 && ob.q.qt != 28 && f[3] != "-" {
+					r.Count("rewrite-values-of-type-" + typeNames[int(ob.q.qt)])
+				}
 				// Property oracle first.
 				if !ob.exp.admits(ob.real) {
-					want := ob.exp.exact
-					if want == "" {
-						want = fmt.Sprintf("%v from %v", ob.exp.kinds, ob.exp.lists)
-					}
+					want := ob.exp.want()
 					r.Violate("precedence-"+ob.exp.clause, fmt.Sprintf("query %s/%d: documented order requires %s, the real filter returned %q",
 						ob.q.host, ob.q.qt, want, ob.real), mk(ob.real, "", want))
 				}
-				mv, amb := normVerdict(answers[i])
-				if amb {
-					r.Count("model-ambiguous")
-					continue
+				mv := normVerdict(answers[i])
+				if len(mv) > 1 {
+					r.Count("model-order-dependent-alternatives")
 				}
-				if mv != ob.real {
-					r.Disagree("req-verdict", fmt.Sprintf("%s: real %q model %q", ops[i], ob.real, mv), mk(ob.real, mv, ""))
+				if !oneOf(mv, ob.real) {
+					r.Disagree("req-verdict", fmt.Sprintf("%s: real %q model %q", ops[i], ob.real, answers[i]), mk(ob.real, answers[i], ""))
 				}
 			case "resp":
 				r.Count("resp-" + strings.Fields(ob.real)[0])
 				r.Count("clause-" + ob.exp.clause)
+				if strings.Contains(ob.ansLine, "65/") {
+					r.Count("resp-https-answer-" + strings.Fields(ob.real)[0])
+				}
+				if strings.Contains(ob.ansLine, "28/") && ob.real != "none" {
+					r.Count("resp-aaaa-answer-" + strings.Fields(ob.real)[0])
+				}
 				if strings.HasPrefix(ob.real, "mod") {
 					r.Violate("response-rewritten", fmt.Sprintf("response filtering of %s returned a rewrite: %s", ob.ansLine, ob.real), mk(ob.real, "", "no rewrite"))
 				} else if !ob.exp.admits(ob.real) {
-					want := ob.exp.exact
-					if want == "" {
-						want = fmt.Sprintf("%v from %v", ob.exp.kinds, ob.exp.lists)
-					}
+					want := ob.exp.want()
 					r.Violate("response-"+ob.exp.clause, fmt.Sprintf("answers %s of %s/%d: documented precedence requires %s, the real filter returned %q",
 						ob.ansLine, ob.q.host, ob.q.qt, want, ob.real), mk(ob.real, "", want))
 				}
-				mv, _ := normVerdict(answers[i])
-				if mv != ob.real {
-					r.Disagree("resp-verdict", fmt.Sprintf("%s: real %q model %q", ops[i], ob.real, mv), mk(ob.real, mv, ""))
+				if mv := normVerdict(answers[i]); !oneOf(mv, ob.real) {
+					r.Disagree("resp-verdict", fmt.Sprintf("%s: real %q model %q", ops[i], ob.real, answers[i]), mk(ob.real, answers[i], ""))
 				}
 			case "mw":
 				u.oracleMW(r, ob.q, mode, filteringOn, ob.reqV, ob.respV, ob.real, ob.upReply, ob.upName, mk)
-				mv, amb := normMsg(answers[i])
-				rv, _ := normMsg(ob.real)
-				if amb {
-					continue
-				}
-				if mv != rv {
-					r.Disagree("mw-response", fmt.Sprintf("%s: real %q model %q", ops[i], rv, mv), mk(rv, mv, ""))
+				mv := normMsg(answers[i])
+				rv := normMsg1(ob.real)
+				if !oneOf(mv, rv) {
+					r.Disagree("mw-response", fmt.Sprintf("%s: real %q model %q", ops[i], rv, answers[i]), mk(rv, answers[i], ""))
 				}
 			}
 		}
@@ -1643,8 +2139,9 @@ func runGrid(r *hlib.Result, m *hlib.Model, rng *rand.Rand, full bool) {
 	u.gss = []rule{{kind: "rc", dom: "a.test", arg: "t2.test", alt: true}}
 	u.sb = hashSet{hosts: []string{"a.test"}, repl: "sb-repl.test"}
 	u.ad, u.nr = hashSet{repl: "ad-repl.test"}, hashSet{repl: "t1.test"}
-	u.grp = cfgT{parentalOn: true, rlOn: true, sbOn: true}
+	u.grp = cfgT{parentalOn: true, rlOn: true, sbOn: true, now: defaultNow}
 	u.gmode = modeT{kind: "null", ttl: 10}
+	clockNow = defaultNow
 	u.build(rng)
 	defer u.close()
 	ulines := u.modelLines()
@@ -1690,16 +2187,12 @@ func runGrid(r *hlib.Result, m *hlib.Model, rng *rand.Rand, full bool) {
 					nontrivial = true
 				}
 				if !exp.admits(p.real[i]) {
-					want := exp.exact
-					if want == "" {
-						want = fmt.Sprintf("%v from %v", exp.kinds, exp.lists)
-					}
+					want := exp.want()
 					r.Violate("precedence-"+exp.clause, fmt.Sprintf("grid, query %s/%d: documented order requires %s, the real filter returned %q",
 						q.host, q.qt, want, p.real[i]), mk(p.real[i], "", want))
 				}
-				mv, amb := normVerdict(answers[at+i])
-				if !amb && mv != p.real[i] {
-					r.Disagree("req-verdict", fmt.Sprintf("grid %s: real %q model %q", op, p.real[i], mv), mk(p.real[i], mv, ""))
+				if mv := normVerdict(answers[at+i]); !oneOf(mv, p.real[i]) {
+					r.Disagree("req-verdict", fmt.Sprintf("grid %s: real %q model %q", op, p.real[i], answers[at+i]), mk(p.real[i], answers[at+i], ""))
 				}
 			}
 			at += len(p.ops)
@@ -1723,7 +2216,7 @@ func runGrid(r *hlib.Result, m *hlib.Model, rng *rand.Rand, full bool) {
 				}
 				for k3 := 0; k3 < n; k3++ {
 					for flags := 0; flags < 4; flags++ {
-						c := cfgT{isClient: true, parentalOn: true, rlOn: true, sbOn: true, lists: []int{k1}, svcs: []int{k3},
+						c := cfgT{isClient: true, parentalOn: true, rlOn: true, sbOn: true, now: defaultNow, lists: []int{k1}, svcs: []int{k3},
 							sb: flags&1 != 0, gss: flags&2 != 0}
 						if k2 >= 0 {
 							c.lists = append(c.lists, k2)
@@ -1755,6 +2248,87 @@ func runGrid(r *hlib.Result, m *hlib.Model, rng *rand.Rand, full bool) {
 	flush()
 }
 
+// runSchedGrid compares the real ConfigSchedule.Contains with the model and
+// with the calendar reading, exhaustively over zones x days (ordinary and
+// transition days) x intervals x wall-clock readings on and next to every
+// boundary and every half hour (every five minutes in the thorough tier).
+func runSchedGrid(r *hlib.Result, m *hlib.Model, thoroughTier bool) {
+	ivs := [][2]int{{700, 800}, {0, 720}, {720, 1440}, {0, 1440}, {0, 0}, {60, 180}, {120, 121}, {1439, 1440}, {0, 1}, {90, 150}}
+	step := 30
+	if thoroughTier {
+		step = 5
+	}
+	type probe struct {
+		sc   *schedT
+		now  time.Time
+		real bool
+	}
+	for _, z := range zonePool {
+		for _, day := range dayPool {
+			var lines []string
+			var probes []probe
+			midnight := time.Date(day[0], time.Month(day[1]), day[2], 0, 0, 0, 0, z.loc)
+			wd := int(midnight.Weekday())
+			lines = append(lines, "reset", zoneLine(z, midnight.Add(12*time.Hour)))
+			for _, iv := range ivs {
+				iv := iv
+				sc := &schedT{zone: z}
+				sc.week[wd] = &iv
+				// The day before has an interval too, so that a wrong weekday
+				// or a wrong day boundary shows.
+				sc.week[(wd+6)%7] = &[2]int{600, 1440}
+				real := sc.build()
+				var mins []int
+				for mm := -60; mm <= 1500; mm += step {
+					mins = append(mins, mm)
+				}
+				for _, mm := range mins {
+					for _, ds := range []int{-1, 0, 1} {
+						now := time.Date(day[0], time.Month(day[1]), day[2], 0, mm, ds, 0, z.loc).UTC()
+						probes = append(probes, probe{sc, now, real.Contains(now)})
+						lines = append(lines, fmt.Sprintf("sched %s %d", sc.token(), now.Unix()))
+					}
+				}
+				for _, b := range []int{iv[0], iv[1]} {
+					for _, ds := range []int{-1, 0, 1} {
+						now := time.Date(day[0], time.Month(day[1]), day[2], 0, b, ds, 0, z.loc).UTC()
+						probes = append(probes, probe{sc, now, real.Contains(now)})
+						lines = append(lines, fmt.Sprintf("sched %s %d", sc.token(), now.Unix()))
+					}
+				}
+			}
+			answers := m.Batch(lines)
+			r.ModelOps += len(lines)
+			answers = answers[2:]
+			inPause := 0
+			for i, pr := range probes {
+				cal := pr.sc.calendarContains(pr.now)
+				mk := replay{Universe: lines[:2], Op: lines[2+i], Real: b01(pr.real), Model: answers[i], Expected: b01(cal)}
+				if pr.real {
+					inPause++
+				}
+				switch {
+				case pr.sc.transitionDay(pr.now) || pr.sc.transitionDay(pr.now.Add(-24*time.Hour)) || pr.sc.transitionDay(pr.now.Add(24*time.Hour)):
+					r.Count("sched-grid-transition-day")
+					if pr.real != cal {
+						r.Count("sched-grid-transition-day-calendar-differs")
+					}
+				case pr.real != cal:
+					r.Violate("pause-schedule-not-calendar", fmt.Sprintf("schedule %s at %s (%s in the zone): a wall clock says in-pause=%v, Contains says %v",
+						pr.sc.token(), pr.now.Format(time.RFC3339), pr.now.In(pr.sc.zone.loc).Format("Mon 15:04:05"), cal, pr.real), mk)
+				default:
+					r.Count("sched-grid-ordinary-day")
+				}
+				if answers[i] != b01(pr.real) {
+					r.Disagree("sched-contains", fmt.Sprintf("%s: real %v model %s", lines[2+i], pr.real, answers[i]), mk)
+				}
+			}
+			r.Case(fmt.Sprintf("sched-grid %s %v", z.name, day), inPause > 0)
+			r.Traces++
+		}
+	}
+}
+
 func main() {
 	o := hlib.ParseFlags()
 	r := hlib.NewResult("C02", o)
@@ -1762,7 +2336,7 @@ func main() {
 		"filterstorage, hash-prefix and safe-search filters, scripted upstream; per universe several profiles (random custom rules, ordered list " +
 		"subsets, services, switches, blocking mode) and the group; per profile ~20 (host,qtype) queries, each asked of the real composite filter " +
 		"(request and response) and of the full dnssvc handler stack; the same lines go to the Lean model; an independent Go oracle applies the " +
-		"documented clauses; plus an exhaustive grid: every combination of nine rule kinds (nothing, block, allow, $dnstype allow/block, rewrite to IP/CNAME/rcode, hosts line) in the custom list x a shared list (x a second shared list in the thorough tier) x a service list x dangerous-domains on/off x safe search on/off. Non-trivial = at least one query got a verdict; distinct = distinct (universe, config, ops) texts"
+		"documented clauses; plus an exhaustive grid: every combination of nine rule kinds (nothing, block, allow, $dnstype allow/block, rewrite to IP/CNAME/rcode, hosts line) in the custom list x a shared list (x a second shared list in the thorough tier) x a service list x dangerous-domains on/off x safe search on/off; and a schedule grid: the real ConfigSchedule.Contains against the model and a wall-clock reading for 8 zones x 12 days (incl. zone-transition days) x 10 intervals x readings on/next to every boundary and every half hour. Non-trivial = at least one query got a verdict; distinct = distinct (universe, config, ops) texts"
 	m := hlib.StartModel(o.Model, "C02")
 	defer m.Close()
 
@@ -1775,5 +2349,6 @@ func main() {
 		runUniverse(o, r, m, rng, nCfg, nQ)
 	}
 	runGrid(r, m, o.Rand("grid"), o.Thorough())
+	runSchedGrid(r, m, o.Thorough())
 	r.Finish()
 }
